@@ -207,7 +207,7 @@ def classify(rel):
     return top
 
 
-def build_once(pname, ch, opts, stale=None, perms=None, outdir="doc"):
+def build_once(pname, ch, opts, stale=None, perms=None, outdir="doc", rootname=None):
     files = PROJECTS[pname]
     names = sorted(f for f in files if f.startswith("src/"))
     perms = perms or list(itertools.permutations(names))
@@ -218,6 +218,8 @@ def build_once(pname, ch, opts, stale=None, perms=None, outdir="doc"):
         perm = perms[pi]
         fordrun.FILE_ORDER = lambda fl: sorted(fl, key=lambda p: perm.index("src/" + p.name))
         root = fordrun.new_root()
+        if rootname:
+            root = root / rootname
         if any(f.startswith("pages/") for f in files):
             opts = dict(opts, page_dir="pages")
         if outdir != "doc":
@@ -454,10 +456,14 @@ def main(tier, replay_path=None):
     # directory beside the sources, directly inside the source directory and two levels below it
     st = Stats()
     for pname in PROJECTS:
-        for outdir in ("doc", "src/doc", "src/build/doc"):
+        for outdir in ("doc", "src/doc", "src/build/doc", "src/doc@glob"):
+            # @glob: the project lives in a directory whose name holds characters that mean something in a glob pattern
+            rootname = None
+            if outdir.endswith("@glob"):
+                outdir, rootname = outdir[:-5], "run[1]v*"
             snaps = {}
             for stale in (None, "other", "same", "same-twice"):
-                r, _, _ = build_once(pname, None, OPTS["graph"], stale, outdir=outdir)
+                r, _, _ = build_once(pname, None, OPTS["graph"], stale, outdir=outdir, rootname=rootname)
                 st.evaluations += 1
                 if r.error is not None or r.stage_reached != "write":
                     st.violation("ford-failed", f"{pname}/stale", dict(project=pname, options="graph", stale=stale or "", deviation_kinds="history", sites="", outdir=outdir),
@@ -466,6 +472,8 @@ def main(tier, replay_path=None):
                 else:
                     snaps[stale] = snapshot(r.out, r.root)
                 r.cleanup()
+            if rootname:
+                outdir += "@glob"
             for stale in ("other", "same", "same-twice"):
                 if snaps[stale] is not None and snaps[None] is not None and snaps[stale] != snaps[None]:
                     diff = sorted(k for k in set(snaps[stale]) | set(snaps[None]) if snaps[stale].get(k) != snaps[None].get(k))
